@@ -24,26 +24,32 @@ using Fut = cocls::future<vs::Counted>;
 void check_payload(Fut &f, int rk, int who) {
     try {
         long v = f.value().value();            // Counted::value() verifies all payload words
-        if (rk != 0 || v != VAL) dsim::fail("C03.payload", "waiter %d read %ld (resolver kind %d)", who, v, rk);
+        if ((rk != 0 && rk != 4) || v != VAL) dsim::fail("C03.payload", "waiter %d read %ld (resolver kind %d)", who, v, rk);
     } catch (const vs::TestError &e) { if (rk != 1 || e.code != 5) dsim::fail("C03.payload", "waiter %d got exception %ld", who, e.code); }
     catch (const cocls::await_canceled_exception &) { if (rk < 2) dsim::fail("C03.payload", "waiter %d saw no-value for resolver kind %d", who, rk); }
     catch (const cocls::value_not_ready_exception &) { dsim::fail("C03.payload", "waiter %d learned readiness but value() says not ready", who); }
     dsim::cell_add(OBS + who, 1);
 }
 cocls::async<void> co_waiter(Fut &f, int rk, int who) {
-    try { vs::Counted &r = co_await f; if (r.value() != VAL || rk != 0) dsim::fail("C03.payload", "coroutine waiter %d read %ld", who, r.v); }
+    try { vs::Counted &r = co_await f; if (r.value() != VAL || (rk != 0 && rk != 4)) dsim::fail("C03.payload", "coroutine waiter %d read %ld", who, r.v); }
     catch (const vs::TestError &e) { if (rk != 1 || e.code != 5) dsim::fail("C03.payload", "coroutine waiter %d got exception %ld", who, e.code); }
     catch (const cocls::await_canceled_exception &) { if (rk < 2) dsim::fail("C03.payload", "coroutine waiter %d saw no-value", who); }
     dsim::cell_add(OBS + who, 1);
 }
 void family_future() {
-    int rk = dsim::choose(4);                  // value, exception, drop, destruction
+    int rk = dsim::choose(5);                  // value, exception, drop, destruction, 4: value racing with an explicit drop on the shared promise
     int nw = 1 + dsim::choose(3);
     int wk[3]; for (int i = 0; i < nw; i++) wk[i] = dsim::choose(5);
     dsim::plan_note("future: resolver=%d waiters=", rk); for (int i = 0; i < nw; i++) dsim::plan_note("%d", wk[i]);
     {
         Fut f;
         std::vector<std::thread> th;
+        if (rk == 4) {
+            // two resolvers share the promise by reference (the documented thread-safe use); whoever wins, waiters must see a complete result
+            static cocls::promise<vs::Counted> shared; shared = f.get_promise();
+            th.emplace_back([] { bool ok = shared(VAL); dsim::cell_add(RESOLVED, ok ? 1 : 0); dsim::cell_add(DONE, 1); });
+            th.emplace_back([] { bool ok = shared(cocls::drop); dsim::cell_add(RESOLVED, ok ? 1 : 0); dsim::cell_add(DONE, 1); });
+        } else
         th.emplace_back([p = f.get_promise(), rk]() mutable {
             switch (rk) {
             case 0: p(VAL); break;
@@ -64,6 +70,7 @@ void family_future() {
         });
         for (auto &t : th) t.join();
         for (int i = 0; i < nw; i++) if (dsim::cell_get(OBS + i) != 1) dsim::fail("C03.payload", "waiter %d observed the result %ld times", i, dsim::cell_get(OBS + i));
+        if (rk == 4 && dsim::cell_get(RESOLVED) != 1) dsim::fail("C03.payload", "%ld of two competing resolutions reported success", dsim::cell_get(RESOLVED));
     }
     vs::Counted::expect_balanced("C03.instances");
 }
@@ -95,18 +102,19 @@ void family_mutex() {
 
 // ------------------------------------------------------------------ family C: awaitable queues carry payloads between threads
 struct Msg { long a, b, c; long check() const { if (b != a * 2 || c != a * 3) dsim::fail("C03.payload", "torn message %ld/%ld/%ld", a, b, c); return a; } };
-cocls::async<void> q_consumer(cocls::queue<Msg> &q, int n) { for (int i = 0; i < n; i++) { Msg m = co_await q.pop(); m.check(); dsim::cell_add(SUM, m.a); } }
+cocls::async<void> q_consumer(cocls::queue<Msg> &q, int n) { for (int i = 0; i < n;) { try { Msg m = co_await q.pop(); m.check(); dsim::cell_add(SUM, m.a); i++; } catch (const vs::TestError &) {} } }
 cocls::async<void> lq_consumer(cocls::limited_queue<Msg> &q, int n) { for (int i = 0; i < n; i++) { Msg m = co_await q.pop(); m.check(); dsim::cell_add(SUM, m.a); } }
 void family_queue() {
-    int np = 1 + dsim::choose(2), nc = 1 + dsim::choose(2), per = 1 + dsim::choose(3); bool limited = dsim::flip(); int ck[2] = {(int)dsim::choose(2), (int)dsim::choose(2)};
+    int np = 1 + dsim::choose(2), nc = 1 + dsim::choose(2), per = 1 + dsim::choose(3); bool limited = dsim::flip(); int ck[2] = {(int)dsim::choose(2), (int)dsim::choose(2)}; bool unblocker = dsim::flip();
     dsim::plan_note("queue: producers=%d consumers=%d per=%d limited=%d", np, nc, per, (int)limited);
     int total = np * per; long expect = 0;
     std::vector<std::thread> th;
     if (!limited) {
         cocls::queue<Msg> q;
         for (int p = 0; p < np; p++) th.emplace_back([&q, p, per] { for (int i = 0; i < per; i++) { long v = p * 100 + i + 1; q.push(Msg{v, v * 2, v * 3}); dsim::cell_add(OBS + 9, (long)q.size() + (q.empty() ? 1 : 0)); } });
+        if (unblocker) th.emplace_back([&q] { for (int i = 0; i < 2; i++) { (void)(bool)q.unblock_pop(vs::make_err(1)); std::this_thread::yield(); } });
         int given = 0;
-        for (int c = 0; c < nc; c++) { int n = c == nc - 1 ? total - given : total / nc; given += n; th.emplace_back([&q, n, k = ck[c]] { if (k) q_consumer(q, n).join(); else for (int i = 0; i < n; i++) { auto f = q.pop(); Msg m = f.wait(); m.check(); dsim::cell_add(SUM, m.a); } }); }
+        for (int c = 0; c < nc; c++) { int n = c == nc - 1 ? total - given : total / nc; given += n; th.emplace_back([&q, n, k = ck[c]] { if (k) q_consumer(q, n).join(); else for (int i = 0; i < n;) { auto f = q.pop(); try { Msg m = f.wait(); m.check(); dsim::cell_add(SUM, m.a); i++; } catch (const vs::TestError &) {} } }); }
         for (auto &t : th) t.join();
     } else {
         cocls::limited_queue<Msg> q(1 + dsim::choose(2));
